@@ -6,6 +6,10 @@
 //! input   `(sel (op NAME params…) (rng seed S | script W) (stack (pop (tag obj)*)*) [(via select)])`   stack top first;
 //!         `(via select)`: the operator is built with `from_params` and `Selection::select` is called directly on the
 //!         top population (the reported stack is then: clones of the returned references, the slice after the call, the rest)
+//!         `(extra (best (tag obj))? (archive (tag obj)*)? (pbest (tag obj)*)? (gbest (tag obj))?)`: the State additionally holds a
+//!         `BestIndividual` (filled through `update`), an `ElitistArchive` (filled by the real `ElitistArchiveUpdate` component),
+//!         PSO `BestParticles` / `BestParticle` with the given content — individuals that need NOT be members of any population
+//!         (sites `<Op>@states`); populations whose members share a tag (= solution) get the sites `<Op>@shared`
 //! output  `((res ok|(e exec)|(e ctor)|panic) (stack (pop …)*) (wit none|(draw xHEX)|(sets (i*)*)))`
 //! helpers `(pw (objs x*) (off x) (norm t|f))` → `(ws x*)|none|panic`;  `(rrank (objs x*))` → `(ranks n*)`;
 //!         `(bounds (objs x*))` → `(b max min)|none`
@@ -17,7 +21,9 @@ use mahf::components::selection::functional as f;
 use mahf::components::selection::iwo::DeterministicFitnessProportional;
 use mahf::components::selection::{All, CloneSingle, Selection, ExponentialRank, FullyRandom, LinearRank, RandomWithoutRepetition, RouletteWheel, StochasticUniversalSampling, Tournament};
 use mahf::components::selection::None as SelectNone;
-use mahf::state::common::Populations;
+use mahf::components::archive::{ElitistArchive, ElitistArchiveUpdate};
+use mahf::components::swarm::pso::{BestParticle, BestParticles};
+use mahf::state::common::{BestIndividual, Populations};
 use mahf::{Component, Individual, Random, SingleObjective, State};
 use rand::{Rng, RngCore, SeedableRng};
 
@@ -129,11 +135,44 @@ fn witness(op: &[Sx], rng_spec: &[Sx], pop: Option<&Vec<Individual<P>>>) -> Stri
     tagged("draw", [fx(rng.gen::<f64>())])
 }
 
+fn part<'a>(a: &'a [Sx], tag: &str) -> Option<&'a [Sx]> {
+    a.iter().skip(3).find_map(|x| match x.head() { Some((t, rest)) if t == tag => Some(rest), _ => Option::None })
+}
+fn is_via(a: &[Sx]) -> bool { part(a, "via").is_some() }
+fn extra_of(a: &[Sx]) -> Option<&[Sx]> { part(a, "extra") }
+
+/// Other best / memory states of the State the selection runs on; their content need not be in any population.
+fn insert_extra(extra: &[Sx], problem: &P, state: &mut State<P>) {
+    for e in extra {
+        let (kind, items) = e.head().unwrap();
+        let inds: Vec<Individual<P>> = items.iter().map(mk_ind).collect();
+        match kind {
+            "best" => {
+                let mut b = BestIndividual::<P>::new();
+                for i in &inds { b.update(i); }
+                state.insert(b);
+            }
+            "archive" => {
+                // the archive's constructor is private: the real update component fills it from a temporary population
+                let upd = ElitistArchiveUpdate::new::<P>(inds.len());
+                upd.init(problem, state).unwrap();
+                state.populations_mut().push(inds);
+                upd.execute(problem, state).unwrap();
+                state.populations_mut().pop();
+                assert!(state.borrow::<ElitistArchive<P>>().elitists().len() == items.len());
+            }
+            "pbest" => { state.insert(BestParticles::<P>::new(inds)); }
+            "gbest" => { state.insert(BestParticle::<P>::new(inds.into_iter().next())); }
+            _ => panic!("unknown extra state {kind}"),
+        }
+    }
+}
+
 fn run_sel(a: &[Sx]) -> String {
     let op = a[0].head().unwrap().1;
     let rng_spec = a[1].head().unwrap().1;
     let pops = a[2].head().unwrap().1;
-    if a.len() > 3 && !pops.is_empty() {
+    if is_via(a) && !pops.is_empty() {
         // direct call of the trait method
         let cur = mk_pop(&pops[0]);
         let mut rng = mk_rng(rng_spec);
@@ -152,9 +191,10 @@ fn run_sel(a: &[Sx]) -> String {
     let mut state: State<P> = State::new();
     state.insert(Populations::<P>::new());
     state.insert(mk_rng(rng_spec));
+    let problem = TagProblem;
+    if let Some(extra) = extra_of(a) { insert_extra(extra, &problem, &mut state); }
     for p in pops.iter().rev() { state.populations_mut().push(mk_pop(p)); }
     let top = pops.first().map(mk_pop);
-    let problem = TagProblem;
     let res = match catch(|| component(op)) {
         Some(Some(c)) => match catch(|| c.execute(&problem, &mut state)) {
             Some(Ok(())) => "ok".to_string(),
@@ -238,10 +278,16 @@ fn site_of(input: &Sx) -> String {
             let op = a[0].head().unwrap().1;
             let name = op_site(op[0].atom().unwrap());
             let pops = a[2].head().unwrap().1;
-            let via = if a.len() > 3 && !pops.is_empty() { "::select" } else { "" };
-            if sel_malformed(op, pops) { format!("{name}{via}/malformed") }
-            else if sel_extreme(op, pops) { format!("{name}{via}/extreme") }
-            else { format!("{name}{via}") }
+            let via = if is_via(a) && !pops.is_empty() { "::select" } else { "" };
+            // members that share a tag (= solution) / a State that holds other best or memory states
+            let shared = pops.first().map_or(false, |p| {
+                let tags: Vec<u64> = p.head().unwrap().1.iter().map(|i| i.items().unwrap()[0].nat().unwrap()).collect();
+                (0..tags.len()).any(|i| tags[..i].contains(&tags[i]))
+            });
+            let mark = match (shared, extra_of(a).is_some()) { (true, true) => "@shared-states", (true, false) => "@shared", (false, true) => "@states", _ => "" };
+            if sel_malformed(op, pops) { format!("{name}{via}{mark}/malformed") }
+            else if sel_extreme(op, pops) { format!("{name}{via}{mark}/extreme") }
+            else { format!("{name}{via}{mark}") }
         }
     }
 }
@@ -577,6 +623,79 @@ fn main() {
         let o = rng.below(14) as usize;
         let parts = vec![op_for(o, size, &mut rng), format!("(rng seed {})", rng.below(1 << 32)), tagged("stack", [pop_str(0, &objs)]), "(via select)".to_string()];
         emit(tagged("sel", parts));
+    }
+    // 10. individuals are (solution, objective) PAIRS: populations whose members share a solution (tag) but differ in the
+    //     objective value (repeated evaluations of a noisy / dynamic objective), members that share the objective but not the
+    //     solution, fully identical duplicates, and mixtures — every operator, through `execute` and `Selection::select`
+    let shared_pop = |size: usize, mode: u64, rng: &mut Sm| -> String {
+        let vals = [1.0, 2.0, 2.0, 3.5, -1.5, 0.0, -0.0, 7.0, f64::INFINITY];
+        let fin_vals = [1.0, 2.0, 2.5, 3.5, -1.5, 0.0, 7.0, 4.0];
+        let ntags = match mode { 0 => 1, 1 => 2, 2 => 1 + rng.below(3), _ => 1 + rng.below(size as u64 + 1) };
+        let mut inds: Vec<String> = Vec::new();
+        for i in 0..size {
+            let t = 1 + rng.below(ntags);
+            let o = match mode {
+                // one solution, pairwise different objectives
+                0 => (i as f64) * 0.5 - 1.0,
+                // two solutions, objectives from a small set without +inf
+                1 => *rng.pick(&fin_vals),
+                // same objective everywhere, solutions differ or not
+                2 => 2.0,
+                3 => *rng.pick(&vals),
+                // every solution evaluated twice: (t, o), (t, o + noise)
+                _ => (t as f64) + if i % 2 == 0 { 0.0 } else { 0.25 * (1 + rng.below(3)) as f64 },
+            };
+            inds.push(list([t.to_string(), fx(o)]));
+        }
+        tagged("pop", inds)
+    };
+    let n_shared = if a.thorough { 14000 } else { 2400 };
+    for i in 0..n_shared {
+        let size = if rng.chance(1, 10) { 9 + rng.below(8) as usize } else { 1 + rng.below(8) as usize };
+        let mode = (i % 5) as u64;
+        let mut stack = vec![shared_pop(size, mode, &mut rng)];
+        if rng.chance(1, 4) { stack.push(below.clone()); }
+        // the DE selections (the only operators that compare individuals) get every third case
+        let o = if i % 3 == 0 { 10 + (i / 3) % 3 } else { rng.below(14) as usize };
+        let mut parts = vec![op_for(o, size, &mut rng), format!("(rng seed {})", rng.below(1 << 32)), tagged("stack", stack)];
+        if rng.chance(1, 3) { parts.push("(via select)".to_string()); }
+        emit(tagged("sel", parts));
+    }
+    // 11. the State holds OTHER best / memory states (BestIndividual, ElitistArchive, PSO BestParticles / BestParticle) whose
+    //     content is not in the current population (better, worse, equal objective; a former member; a member of the population
+    //     below): the selection depends on the source population only.  Every such case is also run through the direct
+    //     `Selection::select` entry point on the same population and seed.
+    let n_states = if a.thorough { 9000 } else { 1500 };
+    for i in 0..n_states {
+        let size = if rng.chance(1, 10) { 9 + rng.below(8) as usize } else { rng.below(8) as usize };
+        let objs: Vec<Option<f64>> = (0..size).map(|_| Some(match i % 3 { 0 => *rng.pick(&fin_grid), 1 => 1.0 + rng.below(5) as f64, _ => *rng.pick(&grid) })).collect();
+        let top = if i % 7 == 6 { shared_pop(size.max(1), 3, &mut rng) } else { pop_str(0, &objs) };
+        let mut stack = vec![top];
+        if rng.chance(1, 3) { stack.push(below.clone()); }
+        // a foreign individual: unknown tag (or the tag of a member with another objective), objective better than / worse than /
+        // equal to the members', or a copy of a member of the population below
+        let foreign = |rng: &mut Sm| -> String {
+            let o = *rng.pick(&[-100.0, -7.25, -1.5, 0.0, 1.0, 2.0, 3.5, 1e6, 1e9, f64::INFINITY]);
+            match rng.below(4) {
+                0 => list([(1 + rng.below(size as u64 + 1)).to_string(), fx(o)]),
+                1 => list(["901".to_string(), fx(7.0)]),
+                _ => list([(500 + rng.below(9)).to_string(), fx(o)]),
+            }
+        };
+        let mut extra: Vec<String> = Vec::new();
+        let which = rng.below(8);
+        if which == 0 || which >= 4 || rng.chance(1, 3) { extra.push(tagged("best", [foreign(&mut rng)])); }
+        if which == 1 || which >= 5 || rng.chance(1, 4) { let k = rng.below(4); extra.push(tagged("archive", (0..k).map(|_| foreign(&mut rng)).collect::<Vec<_>>())); }
+        if which == 2 || which >= 6 || rng.chance(1, 4) { let k = rng.below(size as u64 + 2); extra.push(tagged("pbest", (0..k).map(|_| foreign(&mut rng)).collect::<Vec<_>>())); }
+        if which == 3 || which >= 6 || rng.chance(1, 4) { extra.push(tagged("gbest", [foreign(&mut rng)])); }
+        if extra.is_empty() { extra.push(tagged("best", [foreign(&mut rng)])); }
+        // the operators that use the best member / fitness get two thirds of the cases
+        let o = match i % 6 { 0 | 1 => 11, 2 => 12, 3 => *rng.pick(&[5, 6, 7, 8, 9, 13]), _ => rng.below(14) as usize };
+        let op = op_for(o, size, &mut rng);
+        let seed = format!("(rng seed {})", rng.below(1 << 32));
+        let st = tagged("stack", stack);
+        emit(tagged("sel", [op.clone(), seed.clone(), st.clone(), tagged("extra", extra)]));
+        if i % 2 == 0 { emit(tagged("sel", [op, seed, st, "(via select)".to_string()])); }
     }
     // 6. malformed stream (outside the quantifier): unevaluated members, empty stack, negative / NaN
     //    offset, base outside (0,1), y outside {1,2}
